@@ -49,25 +49,26 @@ Section UpdSpec.
       inversion Hz; subst zs; clear Hz. simpl in Hu.
       unfold writeback_spec. simpl length. simpl seq. simpl fold_left.
       rewrite fold_seq_shift.
-      destruct (fl_inout (fi_flags inp)) eqn:Fi.
+      destruct (fl_inout (fi_flags inp)) eqn:Fi;
+        assert (Fi' : is_inout T inp = fl_inout (fi_flags inp)) by reflexivity; rewrite Fi in Fi'.
       + destruct ports as [|w ports]; try discriminate.
         assert (Hstep : forall s0, (match a with APlace p => assign p w s0 | AExpr => s0 end)
                         = wb_step (inp :: inputs) (a :: args) (w :: ports) s0 0).
-        { intro. unfold wb_step. simpl. unfold is_inout. rewrite Fi. destruct a; reflexivity. }
+        { intro. unfold wb_step. simpl. rewrite Fi'. destruct a; reflexivity. }
         assert (Hu' : update_inout T P W St assign zs' ports
                         (wb_step (inp :: inputs) (a :: args) (w :: ports) s 0) = Some (s', rest)).
         { rewrite <- Hstep. destruct a; exact Hu. }
         destruct (IH _ _ _ _ _ _ E Hu') as [used [Hp [Hl Hs]]].
-        exists (w :: used). simpl. unfold is_inout at 1. rewrite Fi. simpl. split; [congruence|]. split; [lia|].
+        exists (w :: used). simpl. rewrite Fi'. simpl. split; [congruence|]. split; [lia|].
         rewrite Hs. unfold writeback_spec. apply fold_left_ext_in. intros s0 i _.
-        unfold wb_step. simpl. unfold inout_rank. simpl. unfold is_inout at 2. rewrite Fi. simpl. reflexivity.
+        unfold wb_step. simpl. unfold inout_rank. simpl. rewrite Fi'. simpl. reflexivity.
       + assert (Hstep : s = wb_step (inp :: inputs) (a :: args) ports s 0).
-        { unfold wb_step. simpl. unfold is_inout. rewrite Fi. destruct a; reflexivity. }
+        { unfold wb_step. simpl. rewrite Fi'. destruct a; reflexivity. }
         rewrite <- Hstep.
         destruct (IH _ _ _ _ _ _ E Hu) as [used [Hp [Hl Hs]]].
-        exists used. simpl. unfold is_inout at 1. rewrite Fi. split; auto. split; auto.
+        exists used. simpl. rewrite Fi'. split; auto. split; auto.
         rewrite Hs. unfold writeback_spec. apply fold_left_ext_in. intros s0 i _.
-        unfold wb_step. simpl. unfold inout_rank. simpl. unfold is_inout at 2. rewrite Fi. simpl. reflexivity.
+        unfold wb_step. simpl. unfold inout_rank. simpl. rewrite Fi'. simpl. reflexivity.
   Qed.
 
   Lemma update_inout_ports_spec : forall inputs args ports s s',
@@ -158,7 +159,7 @@ Section RoundTrip.
     destruct (nth_error args i) as [[p|]|] eqn:Ea; auto.
     destruct (nth_error names i) as [x|] eqn:Ex.
     - destruct (is_inout T inp) eqn:Fi; auto.
-      rewrite nth_error_map. erewrite inout_names_nth; eauto.
+      rewrite nth_error_map. rewrite (inout_names_nth inputs names inames i inp x Hn Ei Ex Fi). reflexivity.
     - exfalso. apply nth_error_None in Ex. assert (i < length inputs) by (apply nth_error_Some; congruence). lia.
   Qed.
 End RoundTrip.
